@@ -46,6 +46,38 @@ def gen_control(seed_i, tier):
     nmax = 8 if r < 0.6 else (60 if r < 0.9 else 300)
     maxlen = kn.choice([6000, 6000, 6000, 10000, 2000])
     enc, cfg, msgs = msggen.gen_file_messages(st, nmax=nmax, max_record=maxlen)
+    if cfg == "packaged" and maxlen in (2000, 6000) and kn.random() < 0.3:
+        # one message whose encoded record is EXACTLY the configured maximum (and one a byte shorter)
+        wl = st["workload"]
+        for target in (maxlen, maxlen - 1):
+            m = {"MTI": "1240", "DE2": "".join(wl.choice("0123456789") for _ in range(16))}
+            size = 20 + 2 + 16
+            for de in ("DE54", "DE72", "DE111", "DE127", "DE63"):
+                room = target - size - 3
+                if room <= 0:
+                    break
+                n = min(999, room)
+                m[de] = msggen.gen_text(wl, n, enc)
+                size += 3 + n
+            if size < target:
+                # the rest goes into PDS carriers (7 characters of header per sub-element)
+                pds = {}
+                tag = 1
+                while size < target and tag < 40:
+                    carriers_before = len(msggen.pack_pds(pds))
+                    room = target - size
+                    extra = 3 if (not pds or len(msggen.pack_pds(pds)[-1]) + 8 > 999) else 0
+                    n = min(992, room - 7 - extra)
+                    if n < 0:
+                        break
+                    pds[f"PDS{tag:04}"] = msggen.gen_text(wl, n, "ascii")
+                    new_size = 20 + 2 + 16 + sum(3 + len(v) for k, v in m.items() if k.startswith("DE") and k != "DE2") \
+                        + sum(3 + len(c) for c in msggen.pack_pds(pds))
+                    size = new_size
+                    tag += 1
+                m.update(pds)
+            if msggen.msg_size(m, msgcodec.effective_cfg(cfg)) == target:
+                msgs.insert(wl.randint(0, len(msgs)), msgcodec.msg_to_json(m))
     return {"kind": "vbs_pipeline", "level": "ipm", "blocked": kn.random() < 0.5, "storage": "sim",
             "api": kn.choice(["write", "write_many", "ctx"]), "reader": "class", "encoding": enc, "config": cfg,
             "messages": msgs, "knobs": {"MAX_VBS_RECORD_LENGTH": maxlen}}
@@ -359,6 +391,8 @@ def run_task(task):
             c[f"knob:control:blocked={int(scn['blocked'])},cfg={'packaged' if scn['config'] == 'packaged' else 'generated'}"] += 1
             if n >= 100:
                 c["probe:control_file_with_100plus_records"] += 1
+            if wr is not None and any(len(r) == scn["knobs"]["MAX_VBS_RECORD_LENGTH"] for r in pipeline.asked_records(scn)):
+                c["probe:control_message_of_exactly_the_maximum_record_length"] += 1
             if len(wr.image) > 20 * 1014:
                 c["probe:control_file_over_20_blocks"] += 1
             if n >= 2 or len(wr.image) > 1014:
